@@ -18,6 +18,7 @@ RULE = ("bases: 23 built-in/custom gates; modifiers: dagger, controlled(1|2), po
         "one-parameter bases the residual is a trigonometric polynomial: certificate grid => all real parameters. non-trivial = chain of length >= 1 whose "
         "last step changes the matrix")
 RULE += ' Also: replace_params with tuples containing exact zeros / ints; bases at special parameter points (identity / Hermitian matrices) and with exact sympy parameters.'
+RULE += ' Round 7: unit-fraction exponents as sympy.Rational / Fraction / sympy.Float; custom definitions borrowing a built-in name; a non-normal two-qubit custom matrix under exp.'
 RULE += ' Round 6: power(1/q).power(p) for every q up to 130 (260) and p in {3, q-1, q, 2q}; nested exponentials over non-diagonalisable custom matrices.'
 RULE += ' Round 5: power(1/q) for q up to 1024 over 10 bases.'
 ASSUMPTIONS = ["numpy dense arithmetic; reference expm by Taylor scaling-and-squaring", "base gate matrices are decided by C02",
@@ -50,8 +51,17 @@ def apply(g, m):
         return g.exp
     e = m[1]
     if isinstance(e, str):
-        a, b = e.split("/")
-        e = int(a) / int(b)
+        kind = e[0] if e[0] in "RFS" else ""
+        a, b = e.lstrip("RFS").split("/")
+        if kind == "R":
+            e = sympy.Rational(int(a), int(b))
+        elif kind == "F":
+            import fractions
+            e = fractions.Fraction(int(a), int(b))
+        elif kind == "S":
+            e = sympy.Float(int(a) / int(b))
+        else:
+            e = int(a) / int(b)
     return g.power(e)
 
 
@@ -247,7 +257,7 @@ def cutoff_case(case):
     return {"ok": True, "nt": True, "ops": k, "out": "certified" if deg else "grid-only", "extra": {"certified": int(bool(deg)), "grid": len(pts)}}
 
 
-FUNCS = {"defective_customs": chain_case, "root_then_power": chain_case, "unit_fractions": chain_case, "special_bases": chain_case, "exact_parameters": chain_case, "chains": chain_case, "termination": chain_case, "transcendental_pairs": chain_case, "cutoff": cutoff_case}
+FUNCS = {"exponent_kinds": chain_case, "name_borrowing_customs": chain_case, "defective_customs": chain_case, "root_then_power": chain_case, "unit_fractions": chain_case, "special_bases": chain_case, "exact_parameters": chain_case, "chains": chain_case, "termination": chain_case, "transcendental_pairs": chain_case, "cutoff": cutoff_case}
 
 
 def chains(depth, max_trans=1):
@@ -294,7 +304,13 @@ def run(run):
     secs.append(Section("root_then_power", rp_, chain_case, horizon=300, chunk=16, desc="power(1/q).power(p) for every q in 2..%d, p in {3, q-1, q, 2q} over 4 bases (+ a dense custom gate for small q): the p-fold product of the returned root" % rq[-1]))
     dch = [[["exp"]], [["exp"], ["exp"]], [["exp"], ["dagger"], ["exp"]], [["exp"], ["power", 2], ["exp"]], [["dagger"], ["exp"], ["exp"]], [["exp"], ["controlled", 1]], [["controlled", 1], ["exp"]],
            [["power", 2]], [["power", 3], ["dagger"]], [["dagger"], ["power", 2]], [["exp"], ["power", -1]], [["exp"], ["exp"], ["dagger"]]]
-    secs.append(Section("defective_customs", [{"base": G(b), "chain": c, "maxq": 2} for b in ("customnil", "customjordan", "customjordanc") for c in dch], chain_case, horizon=300, chunk=2,
+    ek = [{"base": b, "chain": ch, "maxq": 2} for b in (G("T"), G("X"), G("RX", 0.3), G("SWAP"), G("custom1")) for q in (2, 3, 5) for kd in "RFS"
+          for ch in ([["power", "%s1/%d" % (kd, q)]], [["power", "%s1/%d" % (kd, q)], ["power", q]], [["dagger"], ["power", "%s1/%d" % (kd, q)]], [["power", "%s1/%d" % (kd, q)], ["controlled", 1]])
+          if not (b.get("g") in ("SWAP",) and ch[-1][0] == "controlled")]
+    secs.append(Section("exponent_kinds", ek, chain_case, horizon=300, chunk=4, desc="unit-fraction exponents given as sympy.Rational / fractions.Fraction / sympy.Float (q = 2, 3, 5) over 5 bases: still a q-th root"))
+    nb = [{"base": G(b), "chain": c, "maxq": 4} for b in ("custom:RY", "custom:RZ", "custom:XX", "custom:U3") for c in chains(2, max_trans=0)]
+    secs.append(Section("name_borrowing_customs", nb, chain_case, horizon=300, chunk=8, desc="custom definitions that carry the NAME of a built-in gate family (RY, RZ, XX, U3) but other matrices: every algebraic chain of depth <= 2 is judged by their own matrix"))
+    secs.append(Section("defective_customs", [{"base": G(b), "chain": c, "maxq": 2} for b in ("customnil", "customjordan", "customjordanc", "customcascade") for c in dch if not (b == "customcascade" and ["controlled", 1] in c)], chain_case, horizon=300, chunk=2,
                         desc="modifier chains with nested exponentials over custom definitions whose matrices are not diagonalisable (nilpotent / Jordan blocks): the matrix functions are still the definitions"))
     secs.append(Section("transcendental_pairs", tp, chain_case, horizon=300, chunk=1, desc="transcendental modifier applied on top of a transcendental one"))
     term = [{"base": G("T"), "chain": c, "maxq": 2} for c in ([["exp"]], [["dagger"], ["exp"]], [["power", 2], ["exp"]], [["power", "1/2"]], [["power", "1/3"]])] + \
